@@ -13,6 +13,7 @@ DOCUMENTED = {
     "zero-required-writes-nonrequired", "zero-required-rejects-union-field", "required-black-submask-applied",
     "union-field-white-unselectable", "union-field-black-unfilterable",
     "read:union-field-white-unselectable", "read:union-field-black-unfilterable", "union-element-paths-rejected",
+    "black:prefix-after-deeper-path-ignored", "black:prefix-after-deeper-path-ignored:read",
 }
 
 PARTIAL = [
